@@ -662,7 +662,21 @@ func (r *condRun) finish() *cRunResult {
 
 func condDesc(sc *cSchedule, r *cRunResult) map[string]interface{} {
 	var steps []string
-	for _, e := range r.events {
+	evs := r.events
+	for i := 0; i < len(evs); i++ {
+		e := evs[i]
+		// a run of accepted ordinary adds of consecutive items is shown in one line
+		if !e.isObs && e.l.Op == lAdd && e.l.W < 0 {
+			j := i
+			for j+1 < len(evs) && !evs[j+1].isObs && evs[j+1].l.Op == lAdd && evs[j+1].l.W < 0 && evs[j+1].l.X == evs[j].l.X+1 && evs[j+1].o.eq(e.o) {
+				j++
+			}
+			if j-i+1 >= 4 {
+				steps = append(steps, fmt.Sprintf("LAdd %d .. %d (%d adds, each) -> %s", e.l.X, evs[j].l.X, j-i+1, cCoqOut(e.o)))
+				i = j
+				continue
+			}
+		}
 		if e.isObs {
 			steps = append(steps, fmt.Sprintf("obs ret=%v parked=%v stuck=%v len=%v/%v closed=%v/%v", e.ob.Ret, e.ob.Parked, e.ob.Stuck, e.ob.HasLen, e.ob.Len, e.ob.HasClosed, e.ob.Closed))
 		} else {
